@@ -284,6 +284,27 @@ fn c02_wal_append_after_torn_first_record() {
   kani::cover!(c != b'a', "distinct ids");
 }
 
+//@ props: C02
+//@ tier: quick
+//@ funcs: index::wal::Wal::open, Wal::append_delete_doc_id, Wal::sync, Wal::replay
+//@ symbolic: nothing - the same scenario as c02_wal_append_after_torn_first_record with the concrete id "c", at EVERY tear offset 1..6 of the first record (a concrete companion: if the operation appended after the restart lands behind garbage, the symbolic variant has to parse symbolic bytes as record framing and may not finish; this one always does)
+//@ bounds: 2 crashes, every tear offset inside the first record of the log, concrete ids
+//@ oracle: after the second restart the recovered operations are exactly [delete c]
+//@ assumes: as c02_wal_roundtrip_dcd
+#[kani::proof]
+#[kani::unwind(8)]
+#[kani::stub(std::backtrace::Backtrace::capture, stub_backtrace)]
+#[kani::stub(alloc::fmt::format, stub_format)]
+#[kani::stub(crc32fast::Hasher::internal_new_specialized, stub_crc_specialized)]
+#[kani::stub(serde_json::from_slice, stub_from_slice)]
+#[kani::stub(core::str::from_utf8, stub_from_utf8)]
+fn c02_wal_append_after_torn_first_record_concrete() {
+  let st = build_dcd(b'a', b'b');
+  let full = st.bytes().clone();
+  each_first_tear!(&full, b'c'; 1, 2, 3, 4, 5, 6);
+  kani::cover!(full.len() == 20, "scenario executed");
+}
+
 //@ like: c02_wal_append_after_torn_first_record
 //@ tier: thorough
 //@ timeout: 2700
